@@ -113,12 +113,16 @@ PLANS["C08"] = Plan(
 )
 PLANS["C15"] = Plan(
     "C15", "other",
-    functions=[GE + ":map_games"],
+    functions=[GE + ":map_games", GE + ":search_space_for_n_and_rounds"],
+    lemmas=["divmod_unique"],
     bounded=[bounded.ttp_plan.harness_c15],
     explanation="proved: map_games decodes every game to two different teams in range, places it on the earliest day on which "
                 "both columns are still free (all earlier days blocked, that day free), touches exactly those two cells, drops it "
-                "otherwise; the plan stays mutually consistent, in -n..n, without self-play; all stores fit the plan dtype. "
-                "bounded (exhaustive in n <= 24/40, rounds <= 7/9): search-space composition; multiplicity clause on samples",
+                "otherwise; the plan stays mutually consistent, in -n..n, without self-play; all stores fit the plan dtype; the search-space generator and the decoder agree on the game code: every "
+                "code appended by the real generator loop lies in [0, n*(n-1)), its quotient by n-1 is the home city chosen "
+                "for the pair (i, j) and its remainder is the other city squeezed past it - exactly what map_games decodes. "
+                "bounded (exhaustive in n <= 24/40, rounds <= 7/9): search-space composition (every pair `rounds` times, "
+                "balanced roles); multiplicity clause on samples",
     assumptions=["E1 for the game-plan dtype (holds -n..n)"],
 )
 
